@@ -1,7 +1,7 @@
 (* C07 — definite misuse of configured builtin methods is reported.
    Function-level statements over the faithful models of checkArgType / checkAndPropagateArgs
    (repaired code).  Proofs in Proofs/ArgsP.v. *)
-From RT Require Import Model.Args Proofs.ArgsP.
+From RT Require Import Model.Args Model.CallSpec Proofs.ArgsP.
 
 (* an argument all of whose possible classes the declaration rejects fails the check, in every round *)
 Theorem C07_argument_rejected : forall d a,
@@ -30,6 +30,13 @@ Theorem C07_too_few_reported : forall ptys args,
   exists k, pos_spec true false ptys args = CErr k.
 Proof. exact positional_too_few. Qed.
 Print Assumptions C07_too_few_reported.
+
+(* the spec predicate used end-to-end ("the call certainly fails": count outside the declaration, or an
+   argument all of whose classes are rejected) implies an error of the modelled check in the check round *)
+Theorem C07_certain_failure_reported : forall ptys args,
+  certainly_fails ptys args = true -> exists k, pos_spec true false ptys args = CErr k.
+Proof. exact certainly_fails_reported. Qed.
+Print Assumptions C07_certain_failure_reported.
 
 (* the pinned code accepted an object of the wrong class inside a union: witness kept *)
 Theorem C07_pinned_refuted :
